@@ -3,6 +3,16 @@
  * on the hand-linked topology of vp_mini.h (Machine, 2 Packages, PUs 0,1,2,5, 2 NUMA nodes). Diagnostics (asprintf of sets, fprintf) are not the subject: stubbed.
  * Process-level behaviour (exit statuses, option parsing, output formats) is outside.
  */
+#ifdef FIX_S2
+/* the nested-NUMA template runs on seed S2 built by the real core: package 0 holds NUMA#0, and a CPU-less NUMA#2 hangs off
+ * the machine — only the NODESET of the selected parent tells that NUMA#2 is not inside package 0 */
+#define SEED 2
+#include "vp_seed.h"
+#include <ctype.h>
+static struct hwloc_topology *fixture_build(void) { return vp_seed_build(2, 0); }
+#define FIX_CPUS vp_seed.cpus
+#define FIX_NODES vp_seed.nodes
+#else
 #include "private/autogen/config.h"
 #include "hwloc.h"
 #include "private/private.h"
@@ -19,6 +29,10 @@ char *getenv(const char *n) { (void) n; return 0; }
 #endif
 #define vp_bm vp_mbm
 #define vp_w vp_mw
+static struct hwloc_topology *fixture_build(void) { return vp_mini_build(); }
+#define FIX_CPUS 0x27UL
+#define FIX_NODES 0x3UL
+#endif
 #ifdef VP_CBMC
 /* glibc's isdigit is a table lookup through __ctype_b_loc(): a plain function instead (C locale) */
 #undef isdigit
@@ -123,7 +137,7 @@ static void one(struct hwloc_topology *t, unsigned d1, unsigned d2, unsigned kw,
         if (inside) { int take = TPL == 6 || (lc.logical ? rank == d2 : sub->os[k] == d2); if (take) { ec |= sub->c[k]; en |= sub->ns[k]; } if (sub->os[k] != rank) sparse = 1; rank++; } } }
     if (TPL == 6) open_ended = 1; }
 #else
-  { const char *k = kw ? "all" : "root"; for (unsigned i = 0; k[i]; i++) s[p++] = k[i]; ec = 0x27; en = 0x3; }
+  { const char *k = kw ? "all" : "root"; for (unsigned i = 0; k[i]; i++) s[p++] = k[i]; ec = FIX_CPUS; en = FIX_NODES; }
 #endif
 #if TPL <= 4
   for (unsigned i = 0; i < 4; i++) if (i < lv.n && lv.os[i] != i) sparse = 1;
@@ -148,7 +162,7 @@ static void one(struct hwloc_topology *t, unsigned d1, unsigned d2, unsigned kw,
 #define USES_D1 (TPL != 4 && TPL != 7)
 VP_HARNESS(h_location)
 {
-  struct hwloc_topology *t = vp_mini_build();
+  struct hwloc_topology *t = fixture_build();
   level_table(t, TYPE, &lv); level_table(t, 0, &lpu); level_table(t, 2, &lnuma); level_table(t, 1, &lpack);
   int logical = vp_in_bool();
   unsigned long ac = vp_in64(), an = vp_in64(); VP_ASSUME(ac < 64 && an < 8);
@@ -182,6 +196,6 @@ VP_HARNESS(h_location)
   }
   VP_WITNESS_IF(r == 0 && ec != 0 && oc != ac, "the location changed the accumulated cpuset");
 #if TPL == 6
-  VP_WITNESS_IF(r == 0 && d1 == 0 && en == 0x1, "only the NUMA node inside package 0");
+  VP_WITNESS_IF(r == 0 && d1 == 0 && en == 0x1, "only the NUMA node inside package 0 (not a CPU-less node attached elsewhere)");
 #endif
 }
